@@ -133,7 +133,8 @@ func (rn *Runner) Run(ops []Op) (*SeqResult, error) {
 		defer w.Dispose()
 		bst = append(bst, &bstate{w: w, deadIter: map[int]bool{}})
 	}
-	iterTaint := map[int]string{} // memory: iterator handle -> known class
+	iterTaint := map[int]string{} // memory: iterator handle -> known class of its bounds (permanent)
+	posTaint := map[int]string{}  // memory: iterator handle -> known class of its position (until First/Seek)
 	iterOrigin := map[int]string{} // live iterator handle -> source it was created from
 	orphan := map[int]bool{}       // iterators whose batch / snapshot was closed under them
 	seqTaint := ""
@@ -169,21 +170,21 @@ func (rn *Runner) Run(ops []Op) (*SeqResult, error) {
 				seqTaint, class = sigBatchDR, sigBatchDR
 			}
 		case "first", "seek":
-			if t := iterTaint[o.H]; t == sigPrevFirst || t == sigNextEnd {
-				delete(iterTaint, o.H)
-			}
+			delete(posTaint, o.H)
 		case "prev":
-			if !okc {
-				iterTaint[o.H] = sigPrevFirst
+			if !okc && posTaint[o.H] == "" {
+				posTaint[o.H] = sigPrevFirst
 			}
 		case "next":
-			if !okc {
-				iterTaint[o.H] = sigNextEnd
+			if !okc && posTaint[o.H] == "" {
+				posTaint[o.H] = sigNextEnd
 			}
 		}
 		switch o.K {
 		case "first", "next", "prev", "seek", "value":
 			if t, ok := iterTaint[o.H]; ok {
+				class = t
+			} else if t, ok := posTaint[o.H]; ok {
 				class = t
 			}
 		}
